@@ -150,6 +150,20 @@ class C16(PropBase):
             stored[0] += [{"base": b, "w": via}, {"base": b, "w": w}]
             tok = 2
             n += 5
+        if not steps and rng.random() < 0.25:
+            # motif: references to two classes of one name in different modules held by one context; each class
+            # is found through the reference that names *it*
+            bases = ["b0", "o0"] + [b for b in bases if b not in ("b0", "o0")][:1]
+            first, second = rng.sample(["b0", "o0"], 2)
+            mod = rng.choice(["vw0", "vw1"])
+            steps.append({"ctx": 0, "key": {"base": first, "w": "fref"}, "mod": mod, "op": "ctx_set", "val": "tokF"})
+            steps.append({"ctx": 0, "key": {"base": second, "w": "fref"}, "mod": mod, "op": "ctx_set", "val": "tokS"})
+            for b in rng.sample([first, second, first, second], 3):
+                steps.append({"ctx": 0, "key": {"base": b, "w": rng.choice(["self", "self", "newtype", "alias", "final"])}, "mod": mod,
+                              "op": rng.choice(["ctx_getitem", "ctx_get"]), "default": "dfltR"})
+            stored[0] += [{"base": first, "w": "fref"}, {"base": second, "w": "fref"}]
+            tok = max(tok, 2)
+            n += 5
         while len(steps) < n:
             c = rng.randrange(nctx)
             r = rng.random()
